@@ -20,6 +20,8 @@ Pool == <<
   In(<<"[", "$a", "IN", "BOOLEAN", "(", "$X1", ")", "]", "{", "$a", "}">>, TRUE),                        \* function definition: leaves declared arguments
   In(<<"[", "$a", "IN", "BOOLEAN", "(", "$X1", ")", ",", "$b", "IN", "$X1", "]", "$a", "SET_MINUS", "{", "$b", "}">>, FALSE),
   In(<<"[", "$a", "IN", "BOOLEAN", "(", "$R1", ")", "]", "$a">>, TRUE),                                  \* templated definition (radical)
+  In(<<"[", "$a", "IN", "BOOLEAN", "(", "$X1", ")", ",", "$b", "IN", "$D7", "]", "$a">>, TRUE),          \* fails in the argument list after one accepted argument
+  In(<<"[", "$c", "IN", "$X1", ",", "$c", "IN", "$X1", "]", "$c">>, FALSE),                              \* duplicate argument name
   In(<<"$X1", "EQUAL", "$X1", "AND", "~0A", "$X1", "NOTEQUAL", "$X1", "~0A", "OR", "$X1", "EQUAL", "$X1">>, TRUE),   \* multi-line text: line base
   In(<<"$X1", "UNION", "~0A", "~0A", "(", "$X1">>, TRUE),                                                \* multi-line and failing
   In(<<"$X1", "~80">>, TRUE),                                                                             \* fails in the lexer
